@@ -504,6 +504,42 @@ class System:
                             )
                     except Exception:  # noqa: BLE001
                         ctx.count("mixed_refused")
+                    # every product-type spelling (operators, ufuncs, methods, array functions), also with a bare right operand
+                    prod_ops = {
+                        "a*b": (lambda a, b: a * b, "elem"), "np.multiply": (lambda a, b: np.multiply(a, b), "elem"),
+                        "a.dot(b)": (lambda a, b: a.dot(b), "dot"), "np.dot": (lambda a, b: np.dot(a, b), "dot"), "a@b": (lambda a, b: a @ b, "dot"),
+                        "np.inner": (lambda a, b: np.inner(a, b), "dot"), "np.vdot": (lambda a, b: np.vdot(a, b), "dot"),
+                        "np.outer": (lambda a, b: np.outer(a, b), "outer"), "a/b": (lambda a, b: a / b, "div"),
+                    }
+                    for oname, (of, okind) in prod_ops.items():
+                        for rkind in ("quantity", "bare"):
+                            try:
+                                a2 = arr(ra, "foo")
+                                b2 = arr(rb, "foo", (3.0, 4.0)) if rkind == "quantity" else np.array([3.0, 4.0])
+                                res = of(a2, b2)
+                            except Exception:  # noqa: BLE001
+                                ctx.count("mixed_refused")
+                                continue
+                            ctx.decided((self.route1, hist, "mixed-product", oname, rkind, la, lb))
+                            if not isinstance(res, unyt.unyt_array) or okind == "div":
+                                continue
+                            # judged by behaviour, not identity (registries with identical contents share cached unit objects):
+                            # read back BY NAME, the product must be in the left registry's foo
+                            base_vals = {"elem": np.array([3.0, 8.0]), "dot": np.array(11.0), "outer": np.array([[3.0, 4.0], [6.0, 8.0]])}[okind]
+                            try:
+                                if rkind == "quantity":
+                                    gotp, wantp = np.asarray(res.to("foo**2").d, dtype=float), base_vals * fb[1] / fa[1]
+                                else:
+                                    gotp, wantp = np.asarray(res.to("foo").d, dtype=float), base_vals
+                            except Exception as e:  # noqa: BLE001
+                                gotp, wantp = type(e).__name__, base_vals
+                            if isinstance(gotp, str) or not np.allclose(gotp, wantp, rtol=1e-12):
+                                ctx.violation(
+                                    f"C13|mixed|op={oname}|right={rkind}|left={la}|route2={w.route2}|mode=product-not-in-left-operand's-registry",
+                                    dict(case, left=la, right=lb, op=oname),
+                                    np.asarray(wantp).tolist(),
+                                    gotp if isinstance(gotp, str) else np.asarray(gotp).tolist(),
+                                )
                     if not np.allclose(got, want, rtol=1e-12):
                         ctx.violation(
                             f"C13|mixed|left={la}|right={lb}|route2={w.route2}|mode=sum-not-in-left-operand's-registry",
